@@ -27,7 +27,8 @@ let () =
       | [ "M"; seed; len; h ] -> print_endline (string_of_z (murmur64a_mem (bytes_of h) (z_of_string len) (z_of_string seed)))
       | "F" :: seed :: pieces -> print_endline (string_of_z (hash_fold (z_of_string seed) (List.map bytes_of pieces)))
       | "S" :: n :: pieces -> print_endline (string_of_z (shard_index (List.map bytes_of pieces) (z_of_string n)))
-      | [ "K"; lo; src ] -> print_endline (string_of_z (case_key_train (bytes_of lo) (bytes_of src)))
+      | [ "K"; lo; src ] -> print_endline (string_of_z (case_key_train (bytes_of lo) (bytes_of src) (bytes_of lo)))
+      | [ "K"; lo; src; tgt ] -> print_endline (string_of_z (case_key_train (bytes_of lo) (bytes_of src) (bytes_of tgt)))
       | [ "A"; lo; src ] -> print_endline (string_of_z (case_key_apply (bytes_of lo) (bytes_of src)))
       | [ "X"; h ] -> print_endline (string_of_z (mmhsum (bytes_of h)))
       | "O" :: lines -> print_endline (string_of_z (order_independent_hash (List.map bytes_of lines)))
